@@ -1,6 +1,7 @@
 package props
 
 import (
+	"encoding/base64"
 	"encoding/json"
 	"fmt"
 	"net/url"
@@ -370,6 +371,23 @@ func (tw *tokenWorld) refresh(ch *kernel.Chooser) string {
 	return desc + " TOKENS"
 }
 
+// sameJWT: two compact serialisations that decode to the same three byte strings are the same token (base64url
+// tolerates differences in the unused trailing bits).
+func sameJWT(a, b string) bool {
+	pa, pb := strings.Split(a, "."), strings.Split(b, ".")
+	if len(pa) != 3 || len(pb) != 3 {
+		return false
+	}
+	for i := range pa {
+		x, err1 := base64.RawURLEncoding.DecodeString(pa[i])
+		y, err2 := base64.RawURLEncoding.DecodeString(pb[i])
+		if err1 != nil || err2 != nil || string(x) != string(y) {
+			return false
+		}
+	}
+	return true
+}
+
 func dedup(xs []string) []string {
 	var out []string
 	for _, x := range xs {
@@ -394,6 +412,26 @@ func (tw *tokenWorld) retire(g *grantedToken) {
 
 // mangle returns a token string derived from a genuine one: tampered, re-encrypted or garbage.
 func (tw *tokenWorld) mangle(ch *kernel.Chooser, tok string) (string, string) {
+	if parts := strings.Split(tok, "."); len(parts) == 3 && ch.Bool(1, 3) {
+		// a JWT whose payload was edited while header and signature are the genuine ones (which the provider has most
+		// likely verified before): another subject, another token id, a later expiry
+		if raw, err := base64.RawURLEncoding.DecodeString(parts[1]); err == nil {
+			var m map[string]any
+			if json.Unmarshal(raw, &m) == nil {
+				switch ch.Int(3) {
+				case 0:
+					m["sub"] = map[bool]string{true: "u2", false: "u1"}[m["sub"] == "u1"]
+				case 1:
+					m["exp"] = time.Now().Add(1000 * time.Hour).Unix()
+				default:
+					m["jti"] = "at1"
+				}
+				if b, err := json.Marshal(m); err == nil {
+					return parts[0] + "." + base64.RawURLEncoding.EncodeToString(b) + "." + parts[2], "payload-edited-genuine-signature"
+				}
+			}
+		}
+	}
 	switch ch.Int(7) {
 	case 0:
 		if len(tok) > 10 {
@@ -471,7 +509,7 @@ func (tw *tokenWorld) userinfo(ch *kernel.Chooser) string {
 			tw.viol("C08", "dead-token-honoured", "userinfo", "%s: claims returned for a token that is not live (%s)", desc, firstLine(r.Body))
 		}
 		if kind != "genuine" && tok != g.access {
-			if !decodes || t == nil {
+			if !decodes || t == nil || (strings.Count(g.access, ".") == 2 && !sameJWT(tok, g.access)) {
 				tw.viol("C08", "forged-token-honoured", "userinfo", "%s: claims returned for a manipulated token", desc)
 			}
 		}
@@ -546,6 +584,9 @@ func (tw *tokenWorld) introspect(ch *kernel.Chooser) string {
 		tw.viol("C08", "dead-token-honoured", "introspect-torn", "%s: active:true although the storage call failed", desc)
 	}
 	t := w.Store.TokenSnapshot(id)
+	if kind != "genuine" && tok != g.access && strings.Count(g.access, ".") == 2 && !sameJWT(tok, g.access) {
+		tw.viol("C08", "forged-token-honoured", "introspect", "%s: active:true for a manipulated token", desc)
+	}
 	if !live || t == nil {
 		tw.viol("C08", "dead-token-honoured", "introspect", "%s: active:true for a token that is not live", desc)
 	} else if !slices.Contains(t.Audience, p.claimedClient()) {
